@@ -121,4 +121,31 @@ theorem eig4 : IsEig (isomapPreOfGeodesics G4) V4 mu4 := by
   simp only [sumFin_eq_sum, isomapPre4, Fin.sum_univ_four]
   fin_cases a <;> simp [V4, z4, mu4] <;> norm_num
 
+/-! ### index discipline (`landmark_index_discipline`): three samples that are the ids `4, 2, 5` of a six-id space,
+two landmarks at positions `2, 0`; the ids are relabelled by `i ↦ 5 - i` -/
+
+def cb6 : Mat 6 6 ℚ := fun i j => 10 * (i.1 : ℚ) + (j.1 : ℚ)
+def flip6 : Fin 6 → Fin 6 := fun i => ⟨5 - i.1, by omega⟩
+def cb6' : Mat 6 6 ℚ := fun i j => cb6 (flip6 i) (flip6 j)
+def ids3 : Fin 3 → Fin 6 := fun x => if x.1 = 0 then 4 else if x.1 = 1 then 2 else 5
+def lm2 : Fin 2 → Fin 3 := fun a => if a.1 = 0 then 2 else 0
+
+theorem flip6_flip6 (i : Fin 6) : flip6 (flip6 i) = i := by
+  apply Fin.ext; simp only [flip6]; omega
+
+theorem flip6_injective : Function.Injective flip6 := fun i j h => by
+  rw [← flip6_flip6 i, ← flip6_flip6 j, h]
+
+theorem cb6'_relabels (i j : Fin 6) : cb6' (flip6 i) (flip6 j) = cb6 i j := by
+  simp only [cb6', flip6_flip6]
+
+/-- the matrix the seeded variant builds — `callback.distance(landmarks[i], landmarks[j])`, positions used as ids —
+    changes under the relabelling: entry `(0, 1)` reads id pair `(2, 0)`, which is `20` before and `35` after -/
+theorem position_variant_not_invariant :
+    (fun a b : Fin 2 => cb6' (Fin.castLE (by decide) (lm2 a)) (Fin.castLE (by decide) (lm2 b))) ≠
+    (fun a b : Fin 2 => cb6 (Fin.castLE (by decide) (lm2 a)) (Fin.castLE (by decide) (lm2 b))) := by
+  intro h
+  have h01 := congrFun (congrFun h 0) 1
+  norm_num [cb6', cb6, flip6, lm2, Fin.castLE] at h01
+
 end TapkeeVerif.Landmarks.Witness
